@@ -93,8 +93,65 @@ def check(d, pid, tier="quick"):
     wt.close()
 
 
+def collect(outroot="/tmp"):
+  """Copies verified changes to /verif/seeded/<ID>-<k>/ with meta.json and writes seeded/SUMMARY.md."""
+  sys.path.insert(0, os.path.join(VERIF, "tools"))
+  try:
+    from needs import NEEDS
+  except ImportError:
+    NEEDS = {}
+  rows = []
+  for pid in ["C%02d" % i for i in range(1, 21)]:
+    for k in (1, 2, 3):
+      src = os.path.join(outroot, "out_" + pid, str(k))
+      if not os.path.exists(os.path.join(src, "patch.diff")):
+        continue
+      name = "%s-%d" % (pid, k)
+      dst = os.path.join(VERIF, "seeded", name)
+      def load(fn):
+        try:
+          return json.load(open(os.path.join(src, fn)))
+        except Exception:
+          return None
+      ver = load("verify.json")
+      if not ver or not ver.get("ok"):
+        print("skip (not verified):", name)
+        continue
+      os.makedirs(dst, exist_ok=True)
+      for fn in ("patch.diff", "demo.py", "notes.md"):
+        if os.path.exists(os.path.join(src, fn)):
+          shutil.copy(os.path.join(src, fn), os.path.join(dst, fn))
+      if os.path.exists(os.path.join(src, "patch.orig.diff")):
+        shutil.copy(os.path.join(src, "patch.orig.diff"), os.path.join(dst, "patch.as_written.diff"))
+      q, t = load("check_quick.json"), load("check_thorough.json")
+      det = "quick" if q and q.get("detected") else "thorough" if t and t.get("detected") else "MISSED"
+      meta = {
+          "property": pid, "change": name,
+          "needs_to_manifest": NEEDS.get(name, "see notes.md"),
+          "written_by": "independent sub-agent given only the property text and a scratch worktree",
+          "verified": {"command": "seedtool.py verify <dir>", "demo_exit_on_HEAD": ver["demo_unpatched"]["rc"],
+                       "demo_exit_with_patch": ver["demo_patched"]["rc"], "baseline_tests_passed_with_patch": ver["baseline_passed"]},
+          "detected_by": {"check": pid, "tier": det,
+                          "first_violation": (q if det == "quick" else t or {}).get("first", "")[:400] if det != "MISSED" else "",
+                          "seconds": (q if det == "quick" else t or {}).get("secs")},
+          "adapted": os.path.exists(os.path.join(src, "patch.orig.diff")) and "patch re-based onto a later fix: commit of /repo (patch.as_written.diff is the sub-agent's original)" or None,
+      }
+      with open(os.path.join(dst, "meta.json"), "w") as f:
+        json.dump(meta, f, indent=1)
+      rows.append((name, det, meta["needs_to_manifest"], meta["detected_by"]["first_violation"]))
+  with open(os.path.join(VERIF, "seeded", "SUMMARY.md"), "w") as f:
+    f.write("# Seeded changes and the checks that catch them\n\n| change | caught by (tier) | needs | first violation reported |\n|---|---|---|---|\n")
+    for name, det, needs, first in rows:
+      first = first.split("#", 1)[-1].strip().replace("|", "/")[:160]
+      f.write("| %s | %s %s | %s | %s |\n" % (name, name[:3], det, needs.replace("|", "/"), first))
+  print("collected", len(rows), "missed:", [r[0] for r in rows if r[1] == "MISSED"])
+
+
 if __name__ == "__main__":
   cmd = sys.argv[1]
+  if cmd == "collect":
+    collect()
+    sys.exit(0)
   if cmd == "verify":
     print(json.dumps(verify(sys.argv[2]), indent=1))
   elif cmd == "check":
